@@ -42,6 +42,7 @@ from . import XsdAttribute, XsdSimpleType, XsdComplexType, XsdElement, \
 from .builders import GLOBAL_MAP_ATTRIBUTE, GlobalMaps, TypesMap, NotationsMap, \
     AttributesMap, AttributeGroupsMap, ElementsMap, GroupsMap
 from xmlschema import _limits
+from xmlschema import _verif_trace
 
 
 # Default placeholder for deprecation of argument 'validation' in XsdGlobals
@@ -540,14 +541,20 @@ class XsdGlobals(XsdValidator, Collection[SchemaType]):
         updated adding and building the globals of not built registered schemas.
         """
         if self._built:
+            if _verif_trace.ENABLED:
+                _verif_trace.emit('lock.fast', maps=id(self))
             return
 
         with self._build_lock:
+            if _verif_trace.ENABLED:
+                _verif_trace.emit('lock.acquired', maps=id(self), built=self._built)
             if self._built:
                 return
 
             self.check_loaded_schemas()
             self.clear()
+            if _verif_trace.ENABLED:
+                _verif_trace.emit('lock.clear', maps=id(self))
 
             for ancestor in self.iter_ancestors():
                 ancestor.maps.build()
@@ -572,6 +579,8 @@ class XsdGlobals(XsdValidator, Collection[SchemaType]):
             self.check(schemas)
 
             self._built = True
+            if _verif_trace.ENABLED:
+                _verif_trace.emit('lock.built', maps=id(self))
             for s in schemas:
                 s.clear()
 
